@@ -1124,7 +1124,9 @@ class Rechunk(ArrayExpr):
         return Rechunk(new_concat, target, self.threshold, self.block_size_limit, False, self.method)
 
     def _lower(self):
-        if not self.balance and (self.chunks == self.array.chunks):
+        # self.chunks is the settled target (balance already applied), so equal
+        # chunks mean a no-op whether or not balancing was requested.
+        if self.chunks == self.array.chunks:
             return self.array
 
         # Rechunks inserted during lowering (chunk unification, reshape,
